@@ -189,6 +189,7 @@ pub struct StreamingLexIterator<R: std::io::Read> {
     current_line: String,
     buffer: Vec<u8>,
     finished: bool,
+    has_line: bool,
     line_number: usize,
 }
 
@@ -202,6 +203,7 @@ impl<R: std::io::Read> StreamingLexIterator<R> {
             current_line: String::new(),
             buffer: Vec::with_capacity(8192), // 8KB initial buffer
             finished: false,
+            has_line: false,
             line_number: 0,
         }
     }
@@ -214,6 +216,7 @@ impl<R: std::io::Read> StreamingLexIterator<R> {
         match self.reader.read_line(&mut self.current_line) {
             Ok(0) => {
                 self.finished = true;
+                self.has_line = false;
                 Ok(false)
             }
             Ok(_) => {
@@ -225,6 +228,7 @@ impl<R: std::io::Read> StreamingLexIterator<R> {
                     }
                 }
                 self.line_number += 1;
+                self.has_line = true;
                 Ok(true)
             }
             Err(e) => Err(e),
@@ -236,7 +240,8 @@ impl<R: std::io::Read> LexicographicIterator for StreamingLexIterator<R> {
     type Error = ZiporaError;
 
     fn current(&self) -> Option<&str> {
-        if self.finished || self.current_line.is_empty() {
+        // an empty line is a (valid, smallest) string, not "no current element"
+        if self.finished || !self.has_line {
             None
         } else {
             Some(&self.current_line)
